@@ -211,9 +211,13 @@ theorem step_inv {s : State} (hs : Inv s) (l : Label) : Inv (step s l) := by
   | extClose =>
     simp only [step]
     exact ⟨fun h => ⟨(h1 h).1, rfl⟩, fun h => ⟨(h2 h).1, rfl⟩, h3, h4, h5, h6, h7, h8⟩
+  | panic j =>
+    simp only [step]
+    rw [if_pos (by decide)]
+    exact ⟨h1, h2, h3, h4, h5, h6, h7, h8⟩
   | runBreak =>
     simp only [step]
-    by_cases hc : s.run = .running ∧ (s.cancelled = true ∨ s.epClosed = true)
+    by_cases hc : s.run = .running ∧ (s.cancelled = true ∨ s.epClosed = true ∨ s.taskPanicked = true)
     · rw [if_pos hc]
       refine ⟨by simp, by simp, ?_, ?_, by simp, h6, h7, by simp⟩
       · intro hsl; have := h3 hsl; rw [hc.1] at this; cases this
